@@ -41,6 +41,9 @@ theorem keep_receivedMsg (m : Msg) (w : World) : KeepD w (receivedMsg m w).1 := 
 theorem mgrGotVersions_inv (h : Inv ps pend w) (hm : w.hasMgr = true) (v : Vers) :
     Inv ps pend (mgrGotVersions v w).1 := by
   unfold mgrGotVersions
+  split
+  · exact h
+  unfold mgrGotVersionsWith
   dsimp only
   apply start_inv
   · split
@@ -50,6 +53,9 @@ theorem mgrGotVersions_inv (h : Inv ps pend w) (hm : w.hasMgr = true) (v : Vers)
 
 theorem keep_mgrGotVersions (v : Vers) (w : World) : KeepD w (mgrGotVersions v w).1 := by
   unfold mgrGotVersions
+  split
+  · exact KeepD.refl _
+  unfold mgrGotVersionsWith
   dsimp only
   refine KeepD.trans ?_ (keep_mInput _ _ _ _)
   split
